@@ -106,4 +106,21 @@ PROPS["C07"] = {
     "claimed": False,
 }
 
+PROPS["C14"] = {
+    "imports": VIEW_IMPORTS, "prelude": "Definition cfg := Cfg{TAG}.cfg.",
+    "level_text": "TODO", "level_note": "TODO", "trusted_base": COMMON_TB, "assumptions": [],
+    "rule": "programs with nested code left unreferenced by dead-code elimination, duplicated finally bodies, equal sibling lambdas; every corpus code object with nested code; generated programs; "
+            "distinct = distinct (co_code, name, number of nested code objects)",
+    "replay_hint": "compile the named source; compare list(CodeData.from_code(c).all_code_data()) with a recursive walk of c.co_consts",
+    "claimed": False,
+}
+PROPS["C09"] = {
+    "imports": VIEW_IMPORTS, "prelude": "Definition cfg := Cfg{TAG}.cfg.",
+    "level_text": "TODO", "level_note": "TODO", "trusted_base": COMMON_TB + ["dis.get_instructions as independent reader of first-use ranks"], "assumptions": [],
+    "rule": "every corpus / generated code object and its canonical re-encoding (normalize().to_code()); every override on an in-place entry is tested by stripping it from all uses and re-encoding; "
+            "distinct = distinct (co_code, tables, canonical flag)",
+    "replay_hint": "compile the named source; inspect _index_override / _additional_args of CodeData.from_code(c)",
+    "claimed": False,
+}
+
 NOT_CLAIMED = {}
